@@ -344,7 +344,7 @@ def check_sched(pid, spec, args):
             "unconfirmed_anomalies": len(unconfirmed),
         }
         if spec["engine"] == "storage":
-            for k in ("scheduler_steps", "task_switches_at_contended_decisions", "contended_decisions", "tasks_created", "policies", "simulated_time_s"):
+            for k in ("task_switches_at_contended_decisions", "contended_decisions", "policies", "simulated_time_s"):
                 cov.pop(k, None)
             for smp in cov["samples"]:
                 for k in ("policy", "steps", "switches"):
